@@ -197,7 +197,24 @@ def w_parse(case):
                     want = lines[ent["line"] - 1] if 1 <= ent["line"] <= len(lines) else None
                     ok = want is not None and int(ln) == ent["line"] == int(ln2) and (qt or "").split() == want.split()
                     quoted.append([ent.get("rel"), ent["line"], (qt or "")[:80], (want or "")[:80], bool(ok)])
-        return {"err": msgs, "rendered": rend, "cited": cited, "quoted": quoted}
+        out = {"err": msgs, "rendered": rend, "cited": cited, "quoted": quoted}
+        if isinstance(rend, int):
+            # for the rendering model (FcpModel/Render.lean): the logger's registry as it is now, the chain with each node's
+            # full path and base name, and the text without colour codes and without the entries that name the place in the
+            # implementation which created the message ([<file>.py:<line>])
+            try:
+                rmsgs = []
+                for m, node, _ in err.msg:
+                    ent = {"text": str(m), "cite": None}
+                    if node is not None:
+                        fp = Path(node.meta.filename)
+                        ent["cite"] = {"full": str(fp.resolve()), "base": fp.name, "line": int(node.meta.line)}
+                    rmsgs.append(ent)
+                out["render_case"] = {"sources": [[str(k), str(v)] for k, v in logger.sources.items()], "msgs": rmsgs}
+                out["rendered_plain"] = _re.sub(r"\n   \u21b3 \[[^\]\n]*\.py:\d+\]", "", plain)
+            except Exception as e:  # noqa
+                out["render_case_error"] = str(e)[:100]
+        return out
     finally:
         if not case.get("workroot"):
             shutil.rmtree(d, ignore_errors=True)
@@ -601,6 +618,36 @@ def model_cases(files_list):
     return [{"op": "parse", "files": [[rel.split("/"), text if fl.get("from_string") and rel == fl["root"] else as_read(text)]
                                       for rel, text in fl["files"].items()],
              "root": fl["root"].split("/")} for fl in files_list]
+
+
+def check_rendering(rep, outs, bases):
+    """the implementation's rendered diagnostics against the rendering model (`Logger.error` = Render.render)"""
+    ks = [k for k, o in enumerate(outs) if isinstance(o, dict) and "render_case" in o]
+    if not ks:
+        return
+    res = run_driver_parallel([dict(outs[k]["render_case"], op="render") for k in ks])
+    for k, m in zip(ks, res):
+        rep.cov["evaluations"] += 1
+        o = outs[k]
+        if "out" not in m:
+            rep.hist("rendering", "model: cannot be rendered" if "none" in m else "model: " + str(m)[:60])
+            if "none" in m:
+                rep.cov["disagreements_checked"] += 1
+                rep.violation(dict(bases[k], kind="render-model", observed=o["rendered_plain"][:400],
+                                   what="the rendering model says a citation cannot be resolved, the implementation rendered it"),
+                              no_input=True)
+            continue
+        same = m["out"] == o["rendered_plain"]
+        rep.hist("rendering", "equals the model's text" if same else "differs")
+        if not same:
+            rep.cov["disagreements_checked"] += 1
+            a, b = o["rendered_plain"], m["out"]
+            i = next((i for i in range(min(len(a), len(b))) if a[i] != b[i]), min(len(a), len(b)))
+            # a quoted line that is not the cited line of the named source is the property itself failing
+            wrong_line = any(not q[4] for q in o.get("quoted", []))
+            rep.violation(dict(bases[k], kind="render-text", observed=a[max(0, i - 80):i + 120], expected=b[max(0, i - 80):i + 120],
+                               what="rendered diagnostic differs from the rendering model (first difference at character %d)" % i),
+                          no_input=not wrong_line)
 
 
 # ------------------------------------------------------------------ C07
@@ -1180,6 +1227,8 @@ def run_c11(rep, rng, tier):
             rep.hist("classification_mismatch", stream)
             if os.environ.get("VERIF_STRICT_CLASSIFICATION"):
                 rep.violation(dict(base, kind="classification", model=m, observed=io), no_input=True)
+    check_rendering(rep, [r.get("ok") for r in ires],
+                    [{"text": text, "stream": stream, "from_string": job["from_string"]} for (text, stream), job in zip(inputs, jobs)])
 
 
 def run(prop, tier, replay=None):
